@@ -406,6 +406,7 @@ func jobHeap(j *jobCtx) {
 		bigHeap(j, k)
 		scaleHeap(j, k)
 		churnHeap(j, k)
+		dfltHeaps(j, k) // New(): built-in comparator, float elements incl. NaN, strings
 		for _, cmp := range []string{"prio", "maxpriox", "prioid"} {
 			u := &heapUniverse{kind: k, cmp: cmp, elems: []int{11, 12, 21, 22, 31}, maxLen: 3}
 			if baseCmp(cmp) == "prio" || !j.quick() {
